@@ -182,10 +182,10 @@ func (d *Generator) SetEllipticalGradient(cx, cy, rx, ry, sx, sy float32, spread
 func (d *Generator) SetGradient(shape GradientShape, spread GradientSpread, stops []GradientStop, transform Aff3) error {
 	cBase, nBase := uint8(10), uint8(10)
 
-	nStops := uint8(len(stops))
-	if nStops > uint8(64-len(transform)) {
+	if len(stops) > 64-len(transform) {
 		return TooManyGradientStops
 	}
+	nStops := uint8(len(stops))
 	if x, y := d.CSel(), d.CSel()+64; (cBase <= x && x < cBase+nStops) || (cBase <= y && y < cBase+nStops) {
 		return CSELUsedAsBothGradientAndStop
 	}
